@@ -13,6 +13,12 @@ unwind   : loop bound as a function of N (unwinding assertions stay ON: a too-sm
 
 TOTAL = {'C01', 'C07', 'C08', 'C09', 'C10', 'C11', 'C12', 'C13', 'C14', 'C16', 'C19'}
 
+NATIVE_BASIC = {'c_push_back', 'c_push_front', 'c_try_push_back', 'c_try_push_front', 'c_pop_back', 'c_pop_front', 'c_remove', 'c_swap',
+                'c_swap_remove_back', 'c_swap_remove_front', 'c_truncate_back', 'c_truncate_front', 'c_clear', 'c_make_contiguous', 'c_get', 'c_get_mut',
+                'c_as_slices', 'c_iter_views', 'c_ops_plain', 'c_zst'}
+NATIVE_SIX = {'c_fill_spare', 'c_fill', 'c_fill_with', 'c_extend', 'c_from_iter', 'c_extend_from_slice', 'c_extend_ref', 'c_clone', 'c_into_iter',
+              'c_iter_script', 'c_iter_mut_script', 'c_drain', 'c_drain_leak', 'c_drain_plain', 'c_io_write', 'c_io_read', 'c_io_bufread', 'c_hash_ord'}
+
 Q = [0, 1, 3]
 T = [0, 1, 2, 3, 4, 5]
 
@@ -25,6 +31,14 @@ def H(fn, props, ns_q=Q, ns_t=T, unwind=lambda n: n + 4, **kw):
     props = props.split()
     e = dict(fn=fn, props=props, ns={'quick': ns_q, 'thorough': ns_t}, unwind=unwind)
     e.update(kw)
+    # capacities at which the same contract is additionally ENUMERATED natively (bounded stand-in beyond Kani's N <= 5;
+    # also the small-scope search used by the triage of lost Verus proofs)
+    if 'native' in e:
+        e['ns']['native'] = e.pop('native')
+    elif fn in NATIVE_BASIC:
+        e['ns']['native'] = [6, 7, 8]
+    elif fn in NATIVE_SIX:
+        e['ns']['native'] = [6]
     if 'untagged' not in e:
         e['untagged'] = sorted(set(props) & TOTAL)
     else:
@@ -42,7 +56,7 @@ def W(fn, props, **kw):
         call = lambda n, g=gen: '{ enable_watch(); %s }' % g(n)
     else:
         call = lambda n, f=fn: '{ enable_watch(); %s::<%d>() }' % (f, n)
-    return H(fn, props, name=fn + '_w', call=call, untagged='', **kw)
+    return H(fn, props, name=fn + '_w', call=call, untagged='', native=[], **kw)
 
 
 HARNESSES = [
@@ -110,6 +124,9 @@ HARNESSES += [
 for _n, _m, _tier in [(0, 0, 'q'), (1, 2, 'q'), (2, 2, 'q'), (3, 2, 'q'), (2, 3, 'q'), (3, 3, 'q'), (0, 2, 't'), (2, 0, 't'), (1, 1, 't'), (3, 1, 't'), (1, 3, 't'), (4, 3, 't'), (3, 4, 't')]:
     HARNESSES.append(H('c_eq', 'C04 C13', name='c_eq_m%d' % _m, call='c_eq::<{N}, %d>()' % _m, untagged='C13',
                        ns_q=[_n] if _tier == 'q' else [], ns_t=[_n], unwind=lambda n, m=_m: max(n, m) + 3))
+for _n, _m, _tier in [(2, 1, 'q'), (3, 2, 'q'), (3, 1, 'q'), (2, 2, 'q'), (1, 0, 't'), (3, 3, 't'), (4, 2, 't'), (4, 3, 't'), (2, 3, 't')]:
+    HARNESSES.append(H('c_eq_array', 'C04 C13', name='c_eq_array_m%d' % _m, call='c_eq_array::<{N}, %d>()' % _m, untagged='C13',
+                       ns_q=[_n] if _tier == 'q' else [], ns_t=[_n], unwind=lambda n, m=_m: max(n, m) + 3))
 HARNESSES += [
     H('c_eq_slice', 'C04 C13', call=lambda n: 'c_eq_slice::<%d, %d>()' % (n, n + 1), untagged='C13', ns_q=[0, 2], ns_t=[0, 1, 2, 3], unwind=lambda n: n + 4),
     # c_debug (Debug output == slice's, via a byte sink) exists in verif_kani_ops.rs but is NOT run: core::fmt exhausts CBMC
@@ -129,7 +146,7 @@ HARNESSES += [
     H('c_eio_async_vs_std', 'C16', name='c_eio_async_only', cfg='all(feature = "std", feature = "embedded-io-async")', features='--features embedded-io-async',
       call=lambda n: 'c_eio_async_vs_std::<%d, %d>()' % (n, n + 2), ns_q=[2], ns_t=[0, 2], unwind=lambda n: n + 5),
     # zero-sized elements
-    H('c_zst', 'C19 C11', ns_q=[0, 1, 3], ns_t=[0, 1, 2, 3, 4, 5], unwind=lambda n: n + 4),
+    H('c_zst', 'C03 C19 C11', ns_q=[0, 1, 3], ns_t=[0, 1, 2, 3, 4, 5], unwind=lambda n: n + 4),
 ]
 # From<[T; M]>: (N, M) grid
 for _n, _m, _tier in [(0, 0, 'q'), (0, 2, 'q'), (2, 0, 'q'), (2, 2, 'q'), (2, 3, 'q'), (3, 1, 'q'), (1, 3, 't'), (3, 3, 't'), (3, 5, 't'), (2, 5, 't'), (4, 2, 't'), (1, 1, 't')]:
@@ -146,7 +163,7 @@ def _variant(base, suffix, props, **over):
     e['name'] = base.get('name', base['fn']) + suffix
     e['props'] = props.split()
     e['untagged'] = over.pop('untagged', '').split() if isinstance(over.get('untagged', ''), str) else over.pop('untagged')
-    e['ns'] = {'quick': over.pop('ns_q'), 'thorough': over.pop('ns_t')}
+    e['ns'] = {'quick': over.pop('ns_q'), 'thorough': over.pop('ns_t')}   # (no native capacities for derived variants)
     e.update(over)
     return e
 
